@@ -59,6 +59,9 @@ where
     ) -> Result<Self> {
         // File creation and header write run as a separate task: if the caller's future is dropped
         // in the middle, the new file still gets its header and never stays as an unparsable blob
+        #[cfg(pearl_verif)]
+        let task = crate::verif::spawn("blob-create", Self::create_with_header(name, iodriver, config));
+        #[cfg(not(pearl_verif))]
         let task = tokio::spawn(Self::create_with_header(name, iodriver, config));
         task.await.context("blob creation task failed")?
     }
